@@ -35,8 +35,13 @@ pub struct FnCtx {
     pub secret: HashSet<BindId>,
     pub closures: Vec<HashMap<String, Vec<Node>>>,
     pub loops: Vec<LoopFrame>,
+    pub closure_pub_params: HashMap<String, Vec<bool>>,
     /// >0 while inside a loop / closure body (a `return`/`break`/`continue` there is an exit)
     pub depth_loop: u32,
+    /// >0 while inside code controlled by a secret (arms of rejected / one-hot branches, secret loops)
+    pub depth_sec: u32,
+    /// >0 while inside any branch arm
+    pub depth_branch: u32,
     /// final pass: allocate ids and record tables
     pub emit: bool,
     pub changed: bool,
